@@ -40,24 +40,24 @@ EndMarker(style) ==
     [] style = "endonly"               -> <<Ln("endmov")>> \o ByteLines("one")
     [] style \in {"none", "startonly"} -> <<>>
 
-VARIABLES style, pro, body, epi, file, st
+\* np / nb: lengths of prologue and body (the sections themselves are not kept in the state)
+VARIABLES style, np, nb, file, st
 \* only the markers put there by construction (a startmov/endmov of the pool followed by the
 \* full marker bytes would be a second marker: such files are outside the statement)
 MarkerCountAsBuilt ==
   /\ Cardinality(StartMarks(file, ISA)) = (IF style \in {"none", "endonly"} THEN 0 ELSE 1)
   /\ Cardinality(EndMarks(file, ISA)) = (IF style \in {"none", "startonly"} THEN 0 ELSE 1)
-vars == <<style, pro, body, epi, file, st>>
+vars == <<style, np, nb, file, st>>
 
 Init ==
   /\ style \in Styles
-  /\ pro \in SeqsUpTo(EdgePool, MaxPro)
-  /\ body \in SeqsUpTo(Pool, MaxBody)
-  /\ epi \in SeqsUpTo(EdgePool, MaxEpi)
-  /\ file = pro \o StartMarker(style) \o body \o EndMarker(style) \o epi
+  /\ \E pro \in SeqsUpTo(EdgePool, MaxPro), body \in SeqsUpTo(Pool, MaxBody), epi \in SeqsUpTo(EdgePool, MaxEpi) :
+       /\ file = pro \o StartMarker(style) \o body \o EndMarker(style) \o epi
+       /\ np = Len(pro) /\ nb = Len(body)
   /\ MarkerCountAsBuilt
   /\ st = St0
 
-Stay == UNCHANGED <<style, pro, body, epi, file>>
+Stay == UNCHANGED <<style, np, nb, file>>
 SeeBeginComment == SeeBeginCommentG(file, st) /\ st' = SeeBeginCommentU(file, st) /\ Stay
 SeeEndComment   == SeeEndCommentG(file, st)   /\ st' = SeeEndCommentU(file, st)   /\ Stay
 SeeStartMov     == SeeStartMovG(file, st)     /\ st' = SeeStartMovU(file, st)     /\ Stay
@@ -77,11 +77,11 @@ TypeOK ==
   /\ st.mode \in {"scan", "bytes", "done"} /\ st.pend \in {"-", "S", "E"}
 
 \* ---- Level A, by construction
-Lo == Len(pro) + Len(StartMarker(style)) + 1
-Hi == Len(pro) + Len(StartMarker(style)) + Len(body)
+Lo == np + Len(StartMarker(style)) + 1
+Hi == np + Len(StartMarker(style)) + nb
 \* .byte lines at the beginning of the body directly follow the marker's own .byte lines
 Lead == IF style \in ByteStyles \cup {"mixed", "startonly"}
-        THEN Max({ m \in 0..Len(body) : \A i \in 1..m : body[i].k = "bytes" }) ELSE 0
+        THEN Max({ m \in 0..nb : \A i \in 1..m : file[Lo + i - 1].k = "bytes" }) ELSE 0
 StrictlyBetween == { Lo..Hi, (Lo + Lead)..Hi }
 
 KernelIsStrictlyBetween == (Done /\ style \in BothStyles) => Result(file, st) \in StrictlyBetween
@@ -94,7 +94,7 @@ DeclarativeAgrees == (st = St0) =>
   ELSE IF style = "none" THEN ~a.free /\ a.ks = { 1..Len(file) }
   ELSE a.free
 \* look-alikes never set an index: whatever was found sits at the real markers
-LookAlikesInert ==
+LookAlikesInert == Done =>
   /\ st.start \in {0, Lo + Lead}
   /\ st.end \in {0, Hi + 1}
   /\ (style = "none") => (st.start = 0 /\ st.end = 0)
@@ -107,7 +107,7 @@ KernelHasNoMarkerLine == (Done /\ style \in BothStyles) =>
 Emit == Done =>
   LET a == Allowed(file, ISA) IN
   CSVWrite("%1$s", << ToJson([isa |-> ISA, style |-> style, f |-> Codes(file),
-                               np |-> Len(pro), nb |-> Len(body),
+                               np |-> np, nb |-> nb,
                                free |-> a.free, ks |-> a.ks,
                                lb |-> Result(file, st)]) >>, IOEnv.OUTFILE)
 =============================================================================
